@@ -170,9 +170,15 @@ class Session:
     def observed(self):
         o = self.obj
         if self.sc["obj"] == "list":
-            return {"at": [], "ai": 0}
+            return {"at": [], "ai": 0, "orph": 0}
         ai = getattr(o, "_active_index", 0) if self.sc["obj"] == "ind" else 0
-        return {"at": sorted(vars(o).keys()), "ai": int(ai)}
+        out = {"at": sorted(vars(o).keys()), "ai": int(ai), "orph": 0}
+        if self.sc["obj"] == "hex":
+            # observation only: how many registered indicators work on a candle list that the
+            # Hexital does not hold (and therefore never feeds)
+            held = [id(cs) for _, cs in self.managers()]
+            out["orph"] = sum(1 for ind in o.indicators.values() if id(ind.candles) not in held)
+        return out
 
     # -- one public call ---------------------------------------------------
     def run(self, step):
@@ -430,7 +436,7 @@ def record_scale(sc):
     else:
         mg = [mgr_cfg("default", None, False, None, None)]
         inds = [dict(x.spec(ses.live.get(i, "") if ses else ""), act=1) for i, x in enumerate(sc["inds"])]
-    ev = {"op": "scale", "a": 0, "b": 0, "nm": "", "idx": 0, "exc": exc, "bt": [], "ob": {"at": [], "ai": 0},
+    ev = {"op": "scale", "a": 0, "b": 0, "nm": "", "idx": 0, "exc": exc, "bt": [], "ob": {"at": [], "ai": 0, "orph": 0},
           "rd": [], "ab": [], "aa": [], "wk": wk, "m": [{"drop": 0, "len": 0, "d": []}]}
     return {"id": sc["id"], "fam": sc["fam"], "mg": mg, "ind": inds, "mute": [], "raw": [], "ev": [ev]}
 
@@ -472,7 +478,7 @@ def record(sc):
         if ses.obj is None:
             snaps.append(({"op": step[0], "a": 0, "b": step[1] if step[0] == "new" else 0, "nm": "", "idx": 0,
                            "exc": exc or "NoObject",
-                           "bt": [], "ob": {"at": [], "ai": 0}, "rd": [], "ab": [], "aa": [], "wk": []}, {}))
+                           "bt": [], "ob": {"at": [], "ai": 0, "orph": 0}, "rd": [], "ab": [], "aa": [], "wk": []}, {}))
             break
         if step[0] == "new":
             consumed = step[1]
